@@ -444,7 +444,27 @@ func c13(r *engine.Report, p *engine.Program) {
 		}
 		ok, n := sel != nil, 0
 		if ok {
+			// the decision may sit in a private helper of setExpiration: then the Status() call must
+			// be in the helper and every call of the helper must come after the timer select
+			type loadAt struct {
+				a      engine.Access
+				helper *ssa.Function
+			}
+			var loads []loadAt
 			for _, a := range engine.FieldAccessesIn(se, rsF) {
+				loads = append(loads, loadAt{a, nil})
+			}
+			for _, ci := range engine.CallsIn(se) {
+				c := ci.Common().StaticCallee()
+				if c == nil || len(c.Blocks) == 0 || c == se || privateHelperOf(p, c, map[string]bool{engine.FuncName(se): true}) == "" {
+					continue
+				}
+				for _, a := range engine.FieldAccessesIn(c, rsF) {
+					loads = append(loads, loadAt{a, c})
+				}
+			}
+			for _, la := range loads {
+				a := la.a
 				if a.Kind != engine.AccLoad {
 					continue
 				}
@@ -486,8 +506,25 @@ func c13(r *engine.Report, p *engine.Program) {
 						v = nil
 					}
 				}
-				if call == nil || !sel.Block().Dominates(call.Block()) || call.Block() == sel.Block() && !after(sel, call) {
+				afterSel := func(in ssa.Instruction) bool {
+					return sel.Block().Dominates(in.Block()) && (in.Block() != sel.Block() || after(sel, in))
+				}
+				switch {
+				case call == nil:
 					ok = false
+				case la.helper == nil:
+					if !afterSel(call) {
+						ok = false
+					}
+				default:
+					if call.Parent() != la.helper {
+						ok = false
+					}
+					for _, ci := range engine.CallsIn(se) {
+						if ci.Common().StaticCallee() == la.helper && !afterSel(ci) {
+							ok = false
+						}
+					}
 				}
 			}
 		}
